@@ -2,7 +2,7 @@
 against Model/Rlp.v, with an independent strict decoder (Python) and the proved strict decoder (Coq) as oracles."""
 from coqrun import coq_list, ni, pb
 from gen import pyref, txgen
-from gen.util import lib_vs_model, rbytes, short
+from gen.util import lib_vs_model, limb_values, rbytes, short
 
 NEEDS = dict(cli=True, harness=True, shim=False, release=True)
 RULE = ("len(n, off) for every n in 0..70000 and within +-300 of 2^16, 2^24, 2^32 plus random n < 2^40, both offsets; "
@@ -122,11 +122,13 @@ def run(ctx):
         vals += [1 << top, 0x7f << top | ((1 << top) - 1), 0x80 << top, (1 << (8 * w)) - 1, rng.getrandbits(8 * w) | (1 << top)]
         vals += [rng.getrandbits(8 * w) | (1 << top) for _ in range(3 if not thorough else 30)]
     vals += list(range(0, 300))
+    vals += limb_values(rng, 64) if thorough else rng.sample(limb_values(rng, 64), 1500)
+    vals += limb_values(rng, 128, per_limb=[0, 1, 5, 1 << 64, (1 << 64) + 5, 1 << 127, (1 << 128) - 1])
     impl = ctx.harness([("rlp.uint", v.to_bytes(32, "big")) for v in vals])
     mod = ctx.model(["c07_uint %s" % ni(v) for v in vals], label="C07uint")
     for v, r, m in zip(vals, impl, mod):
         case = dict(op="rlp::uint", value=hex(v))
-        ctx.count("uint/width%d" % ((v.bit_length() + 7) // 8))
+        ctx.count("uint/width%d" % ((v.bit_length() + 7) // 8) if v < 300 or v.bit_length() % 8 in (0, 1, 7) else "uint/limb-structured")
         ctx.distinct(("uint", v))
         lib_vs_model(ctx, "uint-vs-model", case, r, m)
         if r.tag == "ok":
